@@ -18,42 +18,42 @@ CHECKS = {
 CHECKS["C14"] = dict(
     engine="E1 CrossHair on AST slices; E2 z3 regex",
     technique="CrossHair symbolic execution of the three real argument-shaping code fragments (two AST-sliced from the current source) on skeleton strings with symbolic characters; z3 regular-language equality of the three classification rules (no length bound)",
-    text="For every single argument up to the length bound and every 2(3)-argument list from the skeleton family, the parsed node's map, the expander's map and the Lua frame's map are equal (keys, key types, values): confirmed over all paths. The named/positional classification is proved equal as regular languages for unbounded length. Two recorded findings (regions excluded, concrete instances replayed each run).",
+    text="For every single argument up to the length bound and every 2(3)-argument list from the skeleton family, the parsed node's map, the expander's map and the Lua frame's map are equal (keys, key types, values): confirmed over all paths. The named/positional classification is proved equal as regular languages for unbounded length. Two recorded findings (regions excluded, concrete instances replayed each run). Because the Lua accessor is modelled, every run validates the model against the real accessor on 28 argument lists (#invoke of an echo module); a third recorded finding (numeric names above 1000 are clamped in the Lua frame) was found by the thorough tier.",
     design_ref="DESIGN.md 3 C14",
     note="The Lua accessor's trim is modelled (pattern re-read from the Lua file) rather than executed; values are plain text; replays through parse/expand/#invoke use a stub for the absent ustring submodule.",
 )
 CHECKS["C18"] = dict(
     engine="E1 CrossHair",
     technique="CrossHair symbolic execution of the real parser functions against reference definitions; strings symbolic, integer arguments and locale triples enumerated by the generator",
-    text="For every subject string up to the bound (all characters symbolic) and every enumerated integer argument, #len #pos #rpos #sub #replace #explode #titleparts padleft padright lc uc lcfirst ucfirst equal reference definitions transcribed from the MediaWiki manuals; formatnum|R inverts formatnum for numerals with symbolic digits under every distinct (decimal, separator, grouping) triple of the shipped locale files; plural selects by value; the binary-operator ladder of #expr (read from the AST and the live tables) orders every pair of operators as documented. Confirmed over all paths per condition; counterexamples replayed through Wtp.expand.",
+    text="For every subject string up to the bound (all characters symbolic) and every enumerated integer argument, #len #pos #rpos #sub #replace #explode #titleparts padleft padright lc uc lcfirst ucfirst equal reference definitions transcribed from the MediaWiki manuals; formatnum|R inverts formatnum for numerals with symbolic digits under every distinct (decimal, separator, grouping) triple of the shipped locale files; plural selects by value; the binary-operator ladder of #expr (read from the AST and the live tables) orders every pair of operators as documented. Confirmed over all paths per condition; counterexamples replayed through Wtp.expand. The live #expr operator tables compute the documented values on exact integers (mod, arithmetic, comparisons, logic, round of halves); division and round on reals are explored only. The precedence ladder of expr_fn is read from the AST and compared with the documented order for every operator pair (z3, finite).",
     design_ref="DESIGN.md 3 C18",
     note="Reference definitions in refs/strfuncs.py are the oracle; set() inside parserfns is stubbed for the formatnum conditions; #titleparts region of the recorded finding is excluded; #expr precedence only in the thorough tier; urlencode not covered.",
 )
 CHECKS["C05"] = dict(
     engine="E1 CrossHair; E3 AST path encoder + z3",
     technique="CrossHair symbolic execution of every parser-function implementation with symbolic Unicode arguments (exceptions = counterexamples); z3 dominance queries over the AST for the depth guard, the namespace-table lookups and the #expr exception barrier; CrossHair case split for the loop detector",
-    text="Totality of the parser functions is explored symbolically for 0..3 arguments of up to 2 Unicode characters each, with an identity and with an arbitrary expander (about half of the conditions are confirmed over all paths, the rest explored without counterexample); the template-depth guard dominates every recursive expansion on every syntactic path (z3, unbounded); namespace lookups with computed keys are dominated by membership tests; #expr's evaluator and result conversion are inside an exception barrier covering ValueError/ArithmeticError/TypeError; the loop detector equals its specification for all stacks of up to 5 entries and the loop test precedes the expansion of a call's arguments on every syntactic path (cycles closing through an argument are cut). Termination of expand() for every template graph is NOT claimed.",
+    text="Totality of the parser functions is explored symbolically for 0..3 arguments of up to 2 Unicode characters each, with an identity and with an arbitrary expander (about half of the conditions are confirmed over all paths, the rest explored without counterexample); the template-depth guard dominates every recursive expansion on every syntactic path (z3, unbounded); namespace lookups with computed keys are dominated by membership tests; #expr's evaluator and result conversion are inside an exception barrier covering ValueError/ArithmeticError/TypeError; the loop detector equals its specification for all stacks of up to 5 entries and the loop test precedes the expansion of a call's arguments on every syntactic path (cycles closing through an argument are cut). Termination of expand() for every template graph is NOT claimed. The expansion-path balance queries of C16 are discharged here too (the depth guard and the loop detector read that stack).",
     design_ref="DESIGN.md 3 C05",
     note="Page store stubbed to 'absent' in the totality harness; functions behind network/clock/dateparser are excluded (listed in evidence); floats are reals in CrossHair; replays go through Wtp.expand or call_parser_function.",
 )
 CHECKS["C09"] = dict(
     engine="E4 havoc via CrossHair; E3 AST path encoder + z3",
     technique="havoc harness under CrossHair: per-page context state symbolic, protocol start_page+parse/expand compared with a fresh context; z3 path query for in-place mutation of aliased module-level tables",
-    text="For ALL values of the per-page slots (flags, line counters, section/title, cookie tables, message lists, expansion path, strip-marker counters, parser stack) left behind by any earlier page, start_page followed by parse()/expand() of each catalogue document gives the fresh-context tree, messages and expansion path: confirmed over all paths. No path through Wtp.__init__ mutates a module-level table through an alias; every returning path of call_lua_sandbox (exception handlers included) pops the Lua frame and environment stacks it pushed, so no invocation inherits another's environment. Counterexamples are replayed by finding a real dirtying history / a failing invocation followed by a stateful module.",
+    text="For ALL values of the per-page slots (flags, line counters, section/title, cookie tables, message lists, expansion path, strip-marker counters, parser stack) left behind by any earlier page, start_page followed by parse()/expand() of each catalogue document gives the fresh-context tree, messages and expansion path: confirmed over all paths. No path through Wtp.__init__ mutates a module-level table through an alias; every returning path of call_lua_sandbox (exception handlers included) pops the Lua frame and environment stacks it pushed, so no invocation inherits another's environment. Counterexamples are replayed by finding a real dirtying history / a failing invocation followed by a stateful module. Every table mw.loadData/mw.loadJsonData cache results in is emptied by the function start_page calls (facts read from the current Lua source, replayed with a data module modified on one page).",
     design_ref="DESIGN.md 3 C09",
     note="Lua-side state is outside; assumes the begline representation invariant; documents are a fixed catalogue (10 documents x pre_expand on/off); container shapes fixed, contents symbolic.",
 )
 CHECKS["C10"] = dict(
     engine="E1 CrossHair",
     technique="CrossHair symbolic execution of add_page/get_page with a recording connection stub (symbolic titles, all spelling variants); solver-driven case split over operation histories on the real SQLite store and lru_cache against a dict model",
-    text="For every symbolic title up to the bound and every spelling variant, the key add_page writes is among the titles get_page queries, and a title differing in the case of a later letter is not: confirmed over all paths. All histories of 3 operations (add v1/v2, add redirect, get, exists, body, resolve) over 2 titles agree with a dict model on the real store.",
+    text="For every symbolic title up to the bound and every spelling variant, the key add_page writes is among the titles get_page queries, and a title differing in the case of a later letter is not: confirmed over all paths. All histories of 3 (thorough 5) operations (add v1/v2, add v1 with another content model, add redirect, get, exists, body, resolve) over 2 titles agree with a dict model on the real store. CrossHair bypasses functools.lru_cache while tracing, so the history operations run untraced on the real memo after the solver has chosen the history.",
     design_ref="DESIGN.md 3 C10",
     note="SQL text is not interpreted in the recorder conditions (only bound values); commit/reopen identity is outside; histories are a bounded exhaustive case split driven by forks.",
 )
 CHECKS["C17"] = dict(
     engine="E1 CrossHair on the real code + SQLite",
     technique="CrossHair-driven exhaustive case split over bounded inclusion graphs, executing the real analyze_templates on a real SQLite store against an independent least-fixpoint closure",
-    text="For every inclusion graph on 2 templates (each edge absent / exact / written with a lower-case initial), every classifier flag set and every placement of one redirect page (target, dangling, flagged or not, included or not), the marked set equals the closure plus the redirect rule and the analysis terminates; thorough adds 3-template graphs. The solver enumerates a finite space here - labelled as the weakest use of the technique.",
+    text="For every inclusion graph on 2 templates (each edge absent / exact / written with a lower-case initial), every classifier flag set and every placement of one redirect page (target, dangling, flagged or not, included or not), the marked set equals the closure plus the redirect rule and the analysis terminates; thorough adds 3-template graphs. The solver enumerates a finite space here - labelled as the weakest use of the technique. Edge spellings (lower-case initial, underscore, Template: prefix) cycle over the conditions and every second condition starts from a store in which need_pre_expand flags are already set.",
     design_ref="DESIGN.md 3 C17",
     note="Bounded (n<=2 quick, n<=3 thorough); redirect propagation modelled as one step after the closure; several redirects / chains outside.",
 )
@@ -67,49 +67,49 @@ CHECKS["C02"] = dict(
 CHECKS["C15"] = dict(
     engine="E1 CrossHair; E3 AST path encoder + z3",
     technique="CrossHair symbolic execution of nowiki_quote / preprocess_text / _finalize_expand / magic_fn on documents with pinned tags and symbolic content; z3 path queries over the expander's cookie loops",
-    text="For every content string up to the bound (every markup character at every position): quoting leaves no markup outside entities and decodes back; <nowiki>c</nowiki> becomes exactly one N cookie holding c verbatim which finalisation renders quoted; the parse-side handler only adds the quoted text whatever the line-start state; a closed comment and the newline before it vanish. On every syntactic path of the expander's two cookie loops the N branch only re-emits the cookie; preprocess_text saves paired nowiki bodies before it replaces self-closing tags or removes comments (z3 shows the order matters, the AST gives the order).",
+    text="For every content string up to the bound (every markup character at every position): quoting leaves no markup outside entities and decodes back; <nowiki>c</nowiki> becomes exactly one N cookie holding c verbatim which finalisation renders quoted; the parse-side handler only adds the quoted text whatever the line-start state; a closed comment and the newline before it vanish. On every syntactic path of the expander's two cookie loops the N branch only re-emits the cookie; preprocess_text saves paired nowiki bodies before it replaces self-closing tags or removes comments (z3 shows the order matters, the AST gives the order). Finalisation substitutes cookies until none is left (fixed-point loop, AST fact, replayed with nowiki nested in up to 6 unexpanded constructs).",
     design_ref="DESIGN.md 3 C15",
     note="Embedding in arguments/links/cells through the whole pipeline is covered only by the path query and the replay catalogue; rev_ht stubbed by an association list; content bound is small (per-character behaviour).",
 )
 CHECKS["C01"] = dict(
     engine="E2 z3 regex; E1 CrossHair",
     technique="z3 sequence-theory language inclusion between the tokenizer's tag alternatives and tag_fn's own patterns (no length bound), emptiness and repeat-count lemmas; CrossHair on the string-merge kernel",
-    text="Necessary conditions only: every tag-like token the tokenizer can emit is accepted by tag_fn (else tag_fn raises), no token alternative matches the empty string, every heading bookend is a key of the level table - all for strings of any length; the merge kernel establishes 'non-empty strings, no two adjacent, no placeholder characters' for symbolic children lists, attribute values lose their placeholder characters when a node is popped, and the URL part of an external link is merged/finalized when it becomes an argument. Whole-document well-formedness is NOT claimed.",
+    text="Necessary conditions only: every tag-like token the tokenizer can emit is accepted by tag_fn (else tag_fn raises), no token alternative matches the empty string, every heading bookend is a key of the level table - all for strings of any length; the merge kernel establishes 'non-empty strings, no two adjacent, no placeholder characters' for symbolic children lists, attribute values lose their placeholder characters when a node is popped, and the URL part of an external link is merged/finalized when it becomes an argument. Whole-document well-formedness is NOT claimed. One magic_fn step on a saved template/parameter/link/external-link construct whose arguments open formatting, lists or rules leaves nothing it opened still open and never pops ROOT.",
     design_ref="DESIGN.md 3 C01",
     note="\\b modelled by a marker literal (sound for inclusion, models replayed on Wtp.parse); placement rules, argument shapes and other raise sites are outside.",
 )
 CHECKS["C13"] = dict(
     engine="E1 CrossHair; E3 AST path encoder + z3",
     technique="CrossHair on check_template_need_expand with symbolic selection sets and on the AST-sliced expand_parserfn; z3 path queries over the hook call sites of the expander's cookie loop",
-    text="The selection rule equals 'existing, not excluded and (selected or flagged)' on every combination of set None-ness/membership; the parser-function switches re-emit the call text for symbolic arguments with a balanced path; on every syntactic path of one template call the hooks run at most once, a used template_fn result bypasses the body lookup, and an unselected call is re-emitted exactly once without hooks.",
+    text="The selection rule equals 'existing, not excluded and (selected or flagged)' on every combination of set None-ness/membership; the parser-function switches re-emit the call text for symbolic arguments with a balanced path; on every syntactic path of one template call the hooks run at most once, a used template_fn result bypasses the body lookup, and an unselected call is re-emitted exactly once without hooks. A second expand() on the same page, with an independently chosen selection, returns what the rule gives for that selection alone (real store, solver-driven case split).",
     design_ref="DESIGN.md 3 C13",
     note="Whole-page 'text comes back unchanged' and the hooks' argument map are outside (C14 covers the map); path conditions are uninterpreted, violating paths are replayed with recording hooks.",
 )
 CHECKS["C12"] = dict(
     engine="E1 CrossHair on AST slices",
     technique="CrossHair symbolic execution of the AST-sliced parse_dump_xml loop body (lxml element stubbed), of add_page with a recording connection and of add_default_templates",
-    text="For every title of the skeleton family, namespace, selection, content model, text and redirect within the bounds, exactly the pages the statement selects are handed to the store with title, text, model and redirect target unchanged; add_page writes a canonical title unchanged and passes the fields through (template bodies reduced to their includable part); the four helper templates are added exactly when absent (confirmed over all paths); the includable-part pipeline used at ingestion has the required pass order and no early exit that skips an applicable pass.",
+    text="For every title of the skeleton family, namespace, selection, content model, text and redirect within the bounds, exactly the pages the statement selects are handed to the store with title, text, model and redirect target unchanged; add_page writes a canonical title unchanged and passes the fields through (template bodies reduced to their includable part); the four helper templates are added exactly when absent (confirmed over all paths); the includable-part pipeline used at ingestion has the required pass order and no early exit that skips an applicable pass. Two consecutive page elements through the slice of the whole loop (including the statements before it): the record stored for a page depends on that page only.",
     design_ref="DESIGN.md 3 C12",
     note="lxml/bz2 extraction is stubbed in the solver runs and exercised only by replays on generated dumps; duplicate page elements and the overwrite flow are outside; one recorded finding ('Main:' prefix in namespace 0).",
 )
 CHECKS["C04"] = dict(
     engine="E1 CrossHair (kernels, one AST slice)",
     technique="CrossHair symbolic execution of _template_to_body, the AST-sliced expand_args, if_fn/ifeq_fn/switch_fn and add_newline_to_expansion against reference definitions of the MediaWiki rules",
-    text="Kernels only: the includable part of a template body equals an independent scanner on body skeletons with symbolic filler; parameter references resolve by trimmed name / positional numeral / default / literal for every symbolic name up to the bound; #if, #ifeq and #switch follow the ParserFunctions algorithm for symbolic arguments and every case skeleton; the automatic newline rule holds for all strings up to 3 characters (confirmed over all paths per condition); a page-level parameter reference has its default expanded on every syntactic path; the includable-part pipeline removes comments before it interprets noinclude, handles paired before unclosed noinclude, and has no early exit that skips an applicable pass (z3 over the pattern languages, unbounded). The end-to-end statement over template libraries is NOT claimed.",
+    text="Kernels only: the includable part of a template body equals an independent scanner on body skeletons with symbolic filler; parameter references resolve by trimmed name / positional numeral / default / literal for every symbolic name up to the bound; #if, #ifeq and #switch follow the ParserFunctions algorithm for symbolic arguments and every case skeleton; the automatic newline rule holds for all strings up to 3 characters (confirmed over all paths per condition); a page-level parameter reference has its default expanded on every syntactic path; the includable-part pipeline removes comments before it interprets noinclude, handles paired before unclosed noinclude, and has no early exit that skips an applicable pass (z3 over the pattern languages, unbounded). The end-to-end statement over template libraries is NOT claimed. The key under which the expander stores name=value is the key under which {{{name}}} looks it up (two slices composed). _template_to_body deletes exactly the comment-shaped and noinclude-shaped spans (z3 regular-language lemmas, no length bound) in one left-to-right scan, or - for separate passes - z3 decides whether the pass order can show and the witness is replayed.",
     design_ref="DESIGN.md 3 C04",
     note="Caller-frame expansion, duplicate order, recursion and the missing-template link need the whole expander and are outside; numeric comparison in #ifeq/#switch is a recorded finding; expand_recurse is the identity in the expand_args slice.",
 )
 CHECKS["C06"] = dict(
     engine="E1 CrossHair; z3 (finite query); AST fact",
     technique="CrossHair symbolic execution of lua_loader's path sanitiser (recording path stub) and of the attribute filter closure sliced from initialize_lua; z3 query over the retained-module / block-list tables read from the current Lua source and a fresh runtime's package.loaded",
-    text="Python-side gates only: for every module name within the bounds the loader probes only relative paths without '..' components; the attribute filter refuses underscore names, non-str names and every attribute of the context-bound partial helpers for all names up to 4 characters; no capability library the host keeps in package.loaded is served by require() or by any reader of package.loaded that is exported into the sandbox environment; LuaRuntime is constructed with register_eval=False and the filter. What Lua code can do INSIDE the VM is not decided.",
+    text="Python-side gates only: for every module name within the bounds the loader probes only relative paths without '..' components; the attribute filter refuses underscore names, non-str names and every attribute of the context-bound partial helpers for all names up to 4 characters; no capability library the host keeps in package.loaded is served by require() or by any reader of package.loaded that is exported into the sandbox environment; LuaRuntime is constructed with register_eval=False and the filter. What Lua code can do INSIDE the VM is not decided. Every value _lua_reset_env exports into the sandbox is resolved through local aliases and must not be a host capability; a suspicious export is confirmed by a probe module that uses it in the real sandbox.",
     design_ref="DESIGN.md 3 C06",
     note="The environment whitelist, metatables and everything reachable by running Lua are outside; replays boot the real sandbox with a stub ustring module.",
 )
 CHECKS["C03"] = dict(
     engine="E1 CrossHair; E2 z3 regex",
     technique="CrossHair symbolic execution of the real table handlers from every table state of the abstraction (one-step lemmas) and of parse_attrs on written attributes; z3 regular-language inclusion for the table-attribute detector",
-    text="Tables: from every state (table / caption / row with up to two closed cells of symbolic kind and an optional open cell) each of the tokens |-, |, !, ||, !!, |+, |} leaves exactly the state the written grid prescribes; by induction over tokens an r x c grid gives r rows of c cells of the written kind. Attributes: parse_attrs returns exactly the written map for symbolic names/values in all three quoting styles; the detector accepts the whole URL-safe attribute grammar (unbounded). The permitted-parent relation that drives HTML auto-closing equals the content-model rule of wikihtml.py on every ordered pair of allowed tags (z3 over the relation computed by the real code). Link/template argument lists are NOT claimed.",
+    text="Tables: from every state (table / caption / row with up to two closed cells of symbolic kind and an optional open cell) each of the tokens |-, |, !, ||, !!, |+, |} leaves exactly the state the written grid prescribes; by induction over tokens an r x c grid gives r rows of c cells of the written kind. Attributes: parse_attrs returns exactly the written map for symbolic names/values in all three quoting styles; the detector accepts the whole URL-safe attribute grammar (unbounded). The permitted-parent relation that drives HTML auto-closing equals the content-model rule of wikihtml.py on every ordered pair of allowed tags (z3 over the relation computed by the real code). Link/template argument lists are NOT claimed. Attributes written on a table, row or cell become that node's attribute map; `|` inside a link/template/parameter reference closes the current argument; line-start syntax stays disabled for every well-nested sequence of argument re-parses.",
     design_ref="DESIGN.md 3 C03",
     note="State shapes are enumerated, kinds and text symbolic; cell text is concrete in the ||/!! steps (CrossHair artefact); vbar_split's back-reference pattern is not encodable.",
 )
